@@ -120,7 +120,12 @@ def gen_world(seed, tier):
         for si, s in enumerate(seq):
             if si == long_pause_before:
                 # ... or after almost all of it has passed
-                ops.append({"op": "pause", "h": h, "seconds": so0["time_limit"] * rng.choice([2, 10, 0.97, 0.995, 0.9995])})
+                fr = rng.choice([2, 10, 0.97, 0.99, 0.999])
+                if fr > 1:
+                    ops.append({"op": "pause", "h": h, "seconds": so0["time_limit"] * fr})
+                else:
+                    # measured from this model's first use, as a wall clock started then would see it
+                    ops.append({"op": "pause", "h": h, "seconds": 0, "until_fraction_of_limit": fr, "limit": so0["time_limit"]})
             if rng.random() < 0.25:
                 # the caller does something else for a while: (virtual) wall time passes between two calls
                 ops.append({"op": "pause", "h": h, "seconds": rng.choice([30, 100, 1000, 5000, 20000])})
@@ -294,6 +299,7 @@ def _execute(spec):
     pool_objs = _decode_pool(world["pool"])
     pristine = {k: _snap(v) for k, v in pool_objs.items()}
     handles = {}
+    first_use = {}
     info = {}
     shared_use = {}
     solved_any = False
@@ -319,6 +325,9 @@ def _execute(spec):
                 k = op["op"]
                 counters["op:" + k] = counters.get("op:" + k, 0) + 1
                 if k == "pause":
+                    if op.get("until_fraction_of_limit") and h in first_use:
+                        target = first_use[h] + op["until_fraction_of_limit"] * op["limit"]
+                        sim.advance(max(0.0, target - sim.now))
                     sim.advance(float(op["seconds"]))
                     sim.history.add("pause", seconds=op["seconds"])
                     continue
@@ -336,6 +345,8 @@ def _execute(spec):
                 elif h in handles:
                     m = handles[h]
                     I = info[h]
+                    if k in ("solve", "get_lowerbound_k"):
+                        first_use.setdefault(h, sim.now)
                     try:
                         if k == "solve":
                             a = sim.inv
